@@ -657,6 +657,8 @@ func main() {
 	// the pure recursive core of cty.Type, translated (translate.go)
 	ndefs := translateTyFns(*repo, *leanDir, hdr)
 	fmt.Printf("ctyextract: %d Lean definitions translated from cty.Type's Equals/TestConformance/HasDynamicTypes/WithoutOptionalAttributesDeep\n", ndefs)
+	// the boolean, arithmetic and ordering methods of cty/value_ops.go, translated (translate_ops.go)
+	fmt.Printf("ctyextract: %d Lean definitions translated from cty/value_ops.go (Not/And/Or, arithmetic, ordering) and helper.go\n", translateOpsFns(*repo, *leanDir, hdr))
 	// the function-call protocol of cty/function/function.go, translated (translate_fn.go)
 	nfn := translateFnCall(*repo, *leanDir, hdr)
 	fmt.Printf("ctyextract: %d Lean definitions translated from function.Function's returnTypeForValues/ReturnTypeForValues/ReturnType/Call\n", nfn)
